@@ -50,6 +50,7 @@ def setup(ctx):
     ctx.require("monitor", "late_tail_calls", 40)
     ctx.require("monitor", "l3_connect_stall_calls", 16)
     ctx.require("monitor", "l3_server_variety_calls", 48)
+    ctx.require("monitor", "l3_speak_first_calls", 40)
 
 
 CAP = 10 * 1024 * 1024
@@ -597,6 +598,67 @@ def run_l3_server_varieties(ctx):
                     ctx.case(("L3", "server-variety", kind, vname, entry, res[0]), True, sample=wit)
 
 
+def run_l3_speak_first(ctx):
+    """A peer that answers before it has read the request: the end of its handshake, the whole response and
+    close_notify arrive in one segment (deterministic under TLS 1.2).  What the server sent is what the call returns -
+    nothing of it is lost for having come early."""
+    import tempfile
+
+    from nauyaca.client.session import GeminiClient
+
+    from vf import peers
+    from vf.gen import certs
+
+    ident = certs.identity("c13-speak-first", "ec")
+    streams = [b"20 text/gemini\r\nhello world, spoken first\n", b"20 text/plain; charset=utf-8\r\n" + "Gr\u00fc\u00dfe\n".encode() * 300, b"51 Not found\r\n", b"31 gemini://example.org/elsewhere\r\n",
+               b"20 application/octet-stream\r\n" + bytes(range(256)) * 8, b"20 text/gemini\r\n"]
+    tmp = tempfile.mkdtemp(prefix="vf-c13-sf-")
+    try:
+        for tls12 in (True, False):
+            for stream in streams:
+                with peers.SpeakFirstPeer(ident, response=stream, tls12=tls12) as sp:
+                    for entry in ("get", "upload", "delete", "get-with-pinning"):
+                        url = f"gemini://127.0.0.1:{sp.port}/x"
+
+                        async def go():
+                            kw = {"trust_on_first_use": False}
+                            if entry == "get-with-pinning":
+                                kw = {"trust_on_first_use": True, "tofu_db_path": Path(tmp) / f"p{sp.port}.db"}
+                            c = GeminiClient(timeout=8, **kw)
+                            if entry.startswith("get"):
+                                return await c.get(url, follow_redirects=False)
+                            if entry == "delete":
+                                return await c.delete(url)
+                            return await c.upload(url, b"abc", mime_type="text/plain")
+
+                        try:
+                            r = asyncio.run(go())
+                            res = ("response", r.status, r.meta, r.body)
+                        except BaseException as e:  # noqa: BLE001
+                            res = ("error", type(e).__name__, str(e)[:100])
+                        sp.wait_idle(3)
+                        ctx.count("monitor", "l3_calls")
+                        ctx.count("monitor", "l3_speak_first_calls")
+                        kind, val = expected_client_result(stream, True, CAP)
+                        wit = {"level": "L3", "peer": f"answers before reading the request ({'TLS 1.2' if tls12 else 'TLS 1.3'}): handshake end + response + close_notify in one segment", "entry": entry,
+                               "stream": stream[:80], "stream_len": len(stream), "result": (res[0], res[1], res[2], (res[3][:60] if isinstance(res[3], (str, bytes)) else res[3]) if len(res) > 3 else None)}
+                        if kind == "response":
+                            want = ("response", val[0], val[1], val[2])
+                            if res != want:
+                                if res[0] == "error" and not tls12:
+                                    # TLS 1.3: the client may legitimately see the close before / while it writes its request
+                                    ctx.undecided(f"speak-first:tls13:{res[1]}")
+                                else:
+                                    ctx.violation(f"wrong-result:peer-speaks-first:entry={entry.split('-')[0]}", "the response the server sent (early) is not what the call returned", dict(wit, expected=(want[1], want[2], (want[3][:60] if want[3] is not None else None))))
+                            else:
+                                ctx.count("outcome", "L3:speak-first:response")
+                        ctx.case(("L3", "speak-first", tls12, entry, stream[:2], res[0]), True, sample=wit)
+    finally:
+        import shutil
+
+        shutil.rmtree(tmp, ignore_errors=True)
+
+
 def run_l3_overlap(ctx):
     """Several calls in flight at the same time on ONE GeminiClient (as a relay or a crawler uses it): every
     call must end as it would alone - its own stream, its own error - whatever the others do meanwhile."""
@@ -769,3 +831,5 @@ def run(ctx):
         run_l3_connect_stall(ctx)
     if ctx.mine(6) or ctx.nshards == 1:
         run_l3_server_varieties(ctx)
+    if ctx.mine(7) or ctx.nshards == 1:
+        run_l3_speak_first(ctx)
